@@ -4,7 +4,7 @@ package handshake
 //symgo:param NEE quick=8 thorough=11
 //symgo:param NNST quick=5 thorough=8
 //symgo:param NC13 quick=11 thorough=14
-//symgo:param NCR13 quick=13 thorough=15
+//symgo:param NCR13 quick=11 thorough=15
 //symgo:param NXC quick=3 thorough=4
 //symgo:param NXV quick=1 thorough=2
 
